@@ -1211,6 +1211,101 @@ theorem source_expansions_independent (decode : List α → List α) (f : α →
   subst this
   exact ⟨session_fresh decode f h s hs, edit_session_fresh decode xs h s hs⟩
 
+/-! ### The stored form is the column's own
+
+The other direction: the arrays a constructor *stores*.  Were the stored values the caller's input array
+(`numpy.asarray(self.values)` kept when nothing had to be left out), the function applied in place to one
+column's stored values would rewrite the input sequence and the stored values of every other column built from
+it: a column nobody touched would stop expanding to the original. -/
+
+/-- **Stored values built anew are a new array**: the address is not one of the heap before the constructor ran,
+every array that existed (the input among them) keeps its content, and it reads the encoded input. -/
+theorem own_stored_is_new_array (encode : List α → List α) (h : Heap α) (i : Nat) :
+    (constructAt .own encode h i).2 = h.cells.length ∧
+    (∀ a, a < h.cells.length → (constructAt .own encode h i).1.read a = h.read a) ∧
+    (constructAt .own encode h i).1.read (constructAt .own encode h i).2 = encode (h.read i) := by
+  rw [constructAt_own]
+  exact ⟨rfl, fun a ha => heap_read_alloc_old h _ a ha, heap_read_alloc_new h _⟩
+
+/-- **Stored values built anew do not follow the input** (`fresh_stored_survives_maps`): after *any* sequence of
+in-place operations on arrays that existed when the column was built -- the input array, the stored arrays of
+every column built before -- the column's stored values still read the encoded input as it was. -/
+theorem fresh_stored_survives_maps (encode : List α → List α) (h : Heap α) (i : Nat)
+    (ws : List (Nat × List α)) (hws : ∀ w ∈ ws, w.1 < h.cells.length) :
+    ((constructAt .own encode h i).1.writes ws).read (constructAt .own encode h i).2 = encode (h.read i) := by
+  rw [constructAt_own]
+  show (Heap.writes _ ws).read h.cells.length = _
+  rw [heap_read_writes_off _ ws _ (fun w hw => Nat.ne_of_lt (hws w hw))]
+  exact heap_read_alloc_new h _
+
+/-- **Two columns over one input, stored values of their own**: after `f` was applied in place to the stored
+values of the first, the first expands to the decoding of the mapped stored values, the second -- untouched --
+still expands to the decoding of the encoded input, and the input reads what it read. -/
+theorem twin_session_own (encode decode : List α → List α) (f : α → α) (h : Heap α) (i : Nat) (hi : i < h.cells.length) :
+    twinSession .own encode decode f h i =
+      (decode ((encode (h.read i)).map f), decode (encode (h.read i)), h.read i) := by
+  simp only [twinSession, constructAt_own]
+  have hl : (h.alloc (encode (h.read i))).1.cells.length = h.cells.length + 1 := heap_alloc_length h _
+  have hi1 : ((h.alloc (encode (h.read i))).1).read i = h.read i := heap_read_alloc_old h _ i hi
+  rw [hi1, hl]
+  have r1 : ((h.alloc (encode (h.read i))).1.alloc (encode (h.read i))).1.read h.cells.length = encode (h.read i) := by
+    rw [heap_read_alloc_old _ _ _ (by omega)]
+    exact heap_read_alloc_new h _
+  have r2 : ((h.alloc (encode (h.read i))).1.alloc (encode (h.read i))).1.read (h.cells.length + 1) = encode (h.read i) := by
+    have := heap_read_alloc_new (h.alloc (encode (h.read i))).1 (encode (h.read i))
+    rwa [hl] at this
+  have r3 : ((h.alloc (encode (h.read i))).1.alloc (encode (h.read i))).1.read i = h.read i := by
+    rw [heap_read_alloc_old _ _ _ (by omega), hi1]
+  have l2 : ((h.alloc (encode (h.read i))).1.alloc (encode (h.read i))).1.cells.length = h.cells.length + 2 := by
+    rw [heap_alloc_length, hl]
+  generalize ((h.alloc (encode (h.read i))).1.alloc (encode (h.read i))).1 = h2 at *
+  refine Prod.ext ?_ (Prod.ext ?_ ?_)
+  · show decode ((h2.write h.cells.length _).read h.cells.length) = _
+    rw [heap_read_write_self h2 _ _ (by omega), r1]
+  · show decode ((h2.write h.cells.length _).read (h.cells.length + 1)) = _
+    rw [heap_read_write_ne h2 _ _ _ (by omega), r2]
+  · show (h2.write h.cells.length _).read i = _
+    rw [heap_read_write_ne h2 _ _ _ (by omega), r3]
+
+/-- **The statement is false when the stored values are the input array**: all three readings follow the map --
+the untouched column expands to the decoding of the *mapped* input, and the input itself reads mapped. -/
+theorem twin_session_alias (encode decode : List α → List α) (f : α → α) (h : Heap α) (i : Nat) (hi : i < h.cells.length) :
+    twinSession .aliasInput encode decode f h i =
+      (decode ((h.read i).map f), decode ((h.read i).map f), (h.read i).map f) := by
+  simp only [twinSession, constructAt_alias]
+  rw [heap_read_write_self _ _ _ hi]
+
+/-- **The seeded change on the model**: a dense sparse column (nothing equals the default: the stored values are the
+whole sequence, `encode = decode = id`) whose stored values are the input array -- the untouched twin no longer
+expands to the original whenever `f` moves an element. -/
+theorem alias_stored_follows_map (f : α → α) (xs : List α) (hf : xs.map f ≠ xs) :
+    (twinSession .aliasInput id id f ⟨[xs]⟩ 0).2.1 ≠ xs := by
+  rw [twin_session_alias _ _ _ _ _ (by simp)]
+  simpa [Heap.read] using hf
+
+open Gen.Encodings in
+/-- **Every constructor of the source stores arrays built anew** (the origins the extractor read off the assignments
+of the working tree: `numpy.array(run_values)` / `numpy.array([])`, `numpy.unique(...)`, `numpy.where(...)` and
+`numpy.array(self.values)[self.indices]`, `numpy.array([self.value])`; a function column stores no array). -/
+theorem stored_values_are_fresh :
+    rleStoredOrigin = .own ∧ dictStoredOrigin = .own ∧ sparseStoredOrigin = .own ∧ constStoredOrigin = .own := by
+  decide
+
+open Gen.Encodings in
+/-- **Two columns over one input, on the origins read off the source**: for each of the four storing encoders and any
+lossless pair (`decode (encode xs) = xs`: the round-trip theorems above), after an in-place map of the first column's
+stored values the untouched second column still expands to the original sequence and the input is unchanged. -/
+theorem source_twin_session (encode decode : List α → List α) (f : α → α) (h : Heap α) (i : Nat) (hi : i < h.cells.length)
+    (hrt : decode (encode (h.read i)) = h.read i) (o : StoredOrigin)
+    (ho : o ∈ [rleStoredOrigin, dictStoredOrigin, sparseStoredOrigin, constStoredOrigin]) :
+    (twinSession o encode decode f h i).2 = (h.read i, h.read i) := by
+  obtain ⟨h1, h2, h3, h4⟩ := stored_values_are_fresh
+  have : o = .own := by
+    simp only [List.mem_cons, List.not_mem_nil, or_false] at ho
+    rcases ho with rfl | rfl | rfl | rfl <;> assumption
+  subst this
+  rw [twin_session_own _ _ _ _ _ hi, hrt]
+
 end Fresh
 
 /-! ## Non-vacuity -/
@@ -1255,5 +1350,11 @@ example : Num.exactInto .i32 .f64 = true ∧ Num.exactInto .i64 .f64 = false ∧
 example : session .fresh (fun vs => (Np.fullFrom 2 vs).getD []) (· * 2) ⟨[[7], [3]]⟩ 1 = ([3, 3], [6, 6]) ∧
     session .aliasStored (fun vs => (Np.fullFrom 2 vs).getD []) (· * 2) ⟨[[7], [3]]⟩ 1 = ([6, 6], [6, 6]) ∧
     editSession .fresh (fun vs => (Np.fullFrom 2 vs).getD []) [0, 0] (⟨[[7], [3]]⟩ : Heap Nat) 1 = ([3], [3, 3]) := by decide
+
+/-- two columns over the input `[3, 1]` at address 1: with stored values of their own the untouched twin still expands
+to `[3, 1]` and the input reads `[3, 1]` after `values *= 2` on the first; with the input array as stored values both
+read `[6, 2]` -/
+example : twinSession .own id id (· * 2) (⟨[[7], [3, 1]]⟩ : Heap Nat) 1 = ([6, 2], [3, 1], [3, 1]) ∧
+    twinSession .aliasInput id id (· * 2) (⟨[[7], [3, 1]]⟩ : Heap Nat) 1 = ([6, 2], [6, 2], [6, 2]) := by decide
 
 end C09
